@@ -58,6 +58,21 @@ var csPaths = []csPath{
 	{"client", "real-scramblesuit-dial", "outgoing connection failed", []string{"target"}},
 	{"client", "real-obfs4-dial", "outgoing connection failed", []string{"target"}},
 	{"client", "real-meek_lite-dial", "closed connection", []string{"target"}},
+	// … the real client factories on an outgoing connection that accepts what they write and
+	// fails every Read with an address-bearing *net.OpError (reset / i/o timeout) …
+	{"client", "real-obfs2-readerr", "outgoing connection failed", []string{"target", "errip", "local"}},
+	{"client", "real-obfs2-timeout", "outgoing connection failed", []string{"target", "errip", "local"}},
+	{"client", "real-obfs3-readerr", "outgoing connection failed", []string{"target", "errip", "local"}},
+	{"client", "real-obfs3-timeout", "outgoing connection failed", []string{"target", "errip", "local"}},
+	{"client", "real-scramblesuit-readerr", "outgoing connection failed", []string{"target", "errip", "local"}},
+	{"client", "real-scramblesuit-timeout", "outgoing connection failed", []string{"target", "errip", "local"}},
+	{"client", "real-obfs4-readerr", "outgoing connection failed", []string{"target", "errip", "local"}},
+	{"client", "real-obfs4-timeout", "outgoing connection failed", []string{"target", "errip", "local"}},
+	{"client", "real-meek_lite-readerr", "closed connection", []string{"target"}},
+	// … real servers whose peer's connection fails mid-handshake with such a read error …
+	{"server", "real-obfs4-readerr", "handshake failed", []string{"peer", "local"}},
+	{"server", "real-obfs3-readerr", "handshake failed", []string{"peer", "local"}},
+	{"server", "real-obfs2-readerr", "handshake failed", []string{"peer"}},
 	// … and the real obfs4 server: garbage, a truncated genuine handshake, a genuine handshake
 	// (accepted, relayed) followed by its byte-identical replay from another peer
 	{"server", "real-obfs4-garbage", "handshake failed", []string{"peer"}},
@@ -268,7 +283,7 @@ func callSites(r *vlib.Run, replay *csCase) {
 			for _, mode := range []string{"safe", "unsafe"} {
 				c := a
 				c.Mode, c.Who, c.Path = mode, p.who, p.path
-				if p.who == "client" && strings.HasPrefix(p.path, "real-") {
+				if p.who == "client" && strings.HasPrefix(p.path, "real-") && strings.HasSuffix(p.path, "-dial") {
 					// this target is really dialled: a loopback address nobody listens on
 					// (refused at once, whatever the network of the machine)
 					c.Target = real
